@@ -1436,8 +1436,9 @@ impl Schedule {
         depot_usage: &DepotUsage,
     ) -> Tour {
         let first_non_depot = tour.first_non_depot().unwrap();
-        let new_start_depot =
-            self.find_best_start_depot_for_spawning(vehicle_type_idx, first_non_depot, depot_usage);
+        let new_start_depot = self
+            .find_best_start_depot_for_spawning(vehicle_type_idx, first_non_depot, depot_usage)
+            .expect("There should be at least the overflow depot available.");
         let intermediate_tour = if new_start_depot != tour.start_depot().unwrap() {
             tour.replace_start_depot(new_start_depot).unwrap()
         } else {
@@ -1493,7 +1494,7 @@ impl Schedule {
                 vehicle_type_idx,
                 first_node,
                 &self.depot_usage,
-            );
+            )?;
             nodes.insert(0, new_start_depot);
         }
 
@@ -1513,7 +1514,7 @@ impl Schedule {
         vehicle_type_idx: VehicleTypeIdx,
         first_node: NodeIdx,
         depot_usage: &DepotUsage,
-    ) -> NodeIdx {
+    ) -> Result<NodeIdx, String> {
         let start_location = self.network.node(first_node).start_location();
         let start_depot = self
             .network
@@ -1523,7 +1524,12 @@ impl Schedule {
             .find(|depot| {
                 self.can_depot_spawn_vehicle_custom_usage(*depot, vehicle_type_idx, depot_usage)
             })
-            .expect("There should be at least the overflow depot available.");
+            .ok_or_else(|| {
+                format!(
+                    "Cannot spawn vehicle of type {} for start_node {}. No start depot has capacity left, not even the overflow depot.",
+                    vehicle_type_idx, first_node,
+                )
+            })?;
         /* if start_depot == self.network.overflow_depot_ids().1 {
             println!(
                 "\x1b[93mwarning:\x1b[0m Tour for vehicle_type {} violates depot constraints at {}. Using overflow depot instead.",
@@ -1531,7 +1537,7 @@ impl Schedule {
                 self.network.node(first_node)
             );
         } */
-        start_depot
+        Ok(start_depot)
     }
 
     fn find_best_end_depot_for_despawning(
